@@ -10,7 +10,7 @@
 //! and the `h2` crate's client over `tokio-rustls` with ALPN `h2`.
 //!
 //! request  = (L method target headers body)
-//! cfg      = (L c00cfg (L request ...))          c00cfg: c00pipe keys + pkg, slow, echo
+//! cfg      = (L c00cfg (L request ...))          c00cfg: c00pipe keys + pkg, slow, echo, echon
 //! wire     = (L (N 0) (L (N 0) (L version status headers body)))   headers sorted, `last-modified` value masked
 //!          | (L (N 0) (L (N 3)))                 the HTTP/2 stream was reset without a response head
 //!
@@ -170,6 +170,29 @@ fn customize(kv: &[(String, X)], host: &mut Host, _shared: &Arc<c00pipe::Shared>
                     b.push(b':');
                     match req.body_mut().read_to_bytes(1 << 20).await {
                         Ok(data) => b.extend_from_slice(&data),
+                        Err(_) => b.extend_from_slice(b"<body read error>"),
+                    }
+                    let mut resp = Response::new(Bytes::from(b));
+                    resp.headers_mut().insert("content-type", HeaderValue::from_static("text/plain"));
+                    FatResponse::new(resp, comprash::ServerCachePreference::None).with_compress(comprash::CompressPreference::None)
+                }),
+            );
+        }
+    }
+    // echon: (L path limit) — answers "<METHOD>:" ++ the first `limit` bytes of the request body (`read_to_bytes(limit)`):
+    // the rest of the body is left unread
+    if let Some(hs) = kv_get(kv, "echon").and_then(X::as_l) {
+        for h in hs {
+            let Some([path, limit]) = h.as_l() else { continue };
+            let (Some(path), Some(limit)) = (path.as_b(), limit.as_n()) else { continue };
+            host.extensions.add_prepare_single(
+                c00pipe::leak(path),
+                prepare!(req, _host, _path, _addr, move |limit: u128| {
+                    let mut b = req.method().as_str().as_bytes().to_vec();
+                    b.push(b':');
+                    match req.body_mut().read_to_bytes(*limit as usize).await {
+                        // (the in-memory `Body::Bytes` of the layer-4 probe hands out everything whatever the limit: cut here)
+                        Ok(data) => b.extend_from_slice(&data[..data.len().min(*limit as usize)]),
                         Err(_) => b.extend_from_slice(b"<body read error>"),
                     }
                     let mut resp = Response::new(Bytes::from(b));
@@ -615,7 +638,9 @@ fn pair(x: &X, flags: bool) -> X {
         let w1 = history_h1(da, secure1, &reqs).await;
         if flags {
             let w2 = history_h2(db, &reqs).await;
-            return X::L(vec![X::bool(w1.is_ok()), X::bool(w2.is_ok())]);
+            // answered = every request got a response head and body, and the connection's framing was intact afterwards
+            let all = |w: &Result<Vec<Wire>, (usize, String)>| matches!(w, Ok(v) if v.iter().all(|w| matches!(w, Wire::Resp { .. })));
+            return X::L(vec![X::bool(all(&w1)), X::bool(all(&w2))]);
         }
         let w1 = match w1 {
             Ok(w) => w,
